@@ -62,7 +62,8 @@ OutSp == IF out.id \in InputIds THEN out ELSE [id |-> "?", off |-> -1]  \* field
 Decide ==
   LET o == OutSp  loc == LocSp IN
   IF o.id \in InputIds /\ loc.id \in InputIds THEN
-     IF IsValidOffset(loc.id, o.off)
+     \* (fix) the cache is trusted only when both positions carry the same replication id
+     IF o.id = loc.id /\ IsValidOffset(loc.id, o.off)
      THEN LET p == Psync(loc.id, loc.off) IN [p |-> p, clear |-> FALSE, loc |-> loc, o |-> o, rdbLocal |-> FALSE, br |-> "1a"]
      ELSE LET p == Psync(o.id, o.off) IN
           [p |-> p, clear |-> TRUE, loc |-> IF p.full THEN loc ELSE [id |-> p.id, off |-> o.off], o |-> o, rdbLocal |-> FALSE, br |-> "1b"]
@@ -110,8 +111,7 @@ Spec == Init /\ [][Next]_vars
 (* ---------------- property C06 ---------------- *)
 \* the target already holds Byte(out.id, 1..out.off) (nothing if none)
 TargetPrefixOk == out.id = None \/ SamePrefix(out.id, src.id1, out.off)
-Mask1 == OutSp.id \in InputIds /\ LocSp.id \in InputIds /\ OutSp.id # LocSp.id  \* class (p)
-C06 == (done /\ ~Mask1) =>
+C06 == done =>
   CASE res.kind = "snapshot" -> TRUE       \* complete snapshot of the current history + stream from its offset
     [] res.kind = "cachedSnapshot" ->      \* cached snapshot + cached log + live stream: all of the current history
          /\ SamePrefix(cache.hist, src.id1, cache.r)
